@@ -23,8 +23,9 @@ case "$PROP" in
   C01|C06|C15) PLAN="strat:80000:2048:";;
   C05) PLAN="strat:30000:2048:";;   # every execution enumerates all cut positions of its message (about 40 exec/s under ASan)
   C07|C08|C10) PLAN="strat:60000:2048:";;
-  C09) PLAN="strat:500000:1024:";;
-  C17|C18|C19) PLAN="strat:2000000:512:";;
+  C09) PLAN="strat:200000:1024:";;   # a quarter of the cases also run a stream of siblings through one reader
+  C17|C18) PLAN="strat:2000000:512:";;
+  C19) PLAN="strat:300000:512:";;    # an id case parses the message under 3 filters x 3 junk prefixes x every cut inside the id fields
   *) exit 0;;   # no coverage-guided tier for this property
 esac
 export CARGO_NET_OFFLINE=true
